@@ -123,7 +123,8 @@ static void one_execution( const Case& c, const std::vector< int >& pre, bool ve
    X.begin( pre );
    memo.clear();
    g_begin = buf.p;
-   L.record_events = S.check_hooks;
+   L.record_events = S.check_hooks && c.cfg.ctl <= 2;
+   g_errors = ( c.cfg.ctl == 4 ) ? 1 : ( c.cfg.ctl == 5 ) ? 2 : 0;
    // the reference runs first: where it diverges there is no PEG result to compare with (DESIGN §3.1)
    RI.data = buf.p;
    RI.act_family = c.cfg.fam;
@@ -197,7 +198,19 @@ static void one_execution( const Case& c, const std::vector< int >& pre, bool ve
       std::string cls = j;
       for( auto& ch : cls )
          if( ch >= '0' && ch <= '9' ) ch = '#';
-      report( exc ? S.exc_prop : S.result_prop, S.check_positions ? "match result differs from the reference (rule outcome depends on a position counter): " + cls : cls, c, j );
+      bool lazy_rematch_bof = false;
+      if( S.check_positions && In::tracking_mode_v == p::tracking_mode::lazy ) {
+         bool rem = false, bof = false;
+         for( int i = 0; i < c.nrules; ++i ) {
+            rem = rem || tab[ i ].op == REMATCH || tab[ i ].op == REMATCH3 || tab[ i ].op == MINUS;
+            bof = bof || tab[ i ].op == BOF;
+         }
+         lazy_rematch_bof = rem && bof;
+      }
+      if( lazy_rematch_bof )
+         report( "C06", "lazy input: positions inside the second phase of rematch / minus are relative to the re-matched text|consequence: bof matches at the start of the re-matched text", c, j );
+      else
+         report( exc ? S.exc_prop : S.result_prop, S.check_positions ? "match result differs from the reference (rule outcome depends on a position counter): " + cls : cls, c, j );
    }
 #ifdef VERIF_TREE
    // ---- the parse tree is the surviving derivation of the selected rules (C12)
@@ -287,7 +300,7 @@ static void one_execution( const Case& c, const std::vector< int >& pre, bool ve
       if( !want.empty() ) vf::count( "executions_with_surviving_actions" );
    }
    // ---- hook protocol (C08)
-   if( S.check_hooks ) {
+   if( S.check_hooks && c.cfg.ctl <= 2 ) {
       bool defect = false;
       const std::string h = check_hooks( c.cfg.ctl != 1, defect );
       if( !h.empty() ) report( "C08", h, c );
